@@ -310,7 +310,7 @@ pub fn gen_cfg_for(prop: &str, rng: &mut Rng, thorough: bool) -> GenCfg {
 /// The C01/C02/C03 workload. Every solve is judged by O1; only issues of `prop` are reported by this run.
 pub fn run_end_to_end(run: &Run, prop: &'static str) {
     let thorough = !run.is_quick();
-    let cases: u64 = run.by_tier(if prop == "C03" { 400 } else { 900 }, 20_000);
+    let cases: u64 = run.by_tier(900, 20_000);
     let max_gens = run.by_tier(40usize, 200usize);
     par_for(4, cases, &|| !run.has_time(), &|i| {
         let case_seed = mix(run.seed, i);
